@@ -462,7 +462,7 @@ def run(ctx):
         return (x - r) + 0.5 * math.sin(k * (x - r)) - c
     for solver_name in ("bisect", "brentq"):
         solver = getattr(RF, solver_name)
-        for _ in range(400 if thorough else 45):
+        for _ in range(250 if thorough else 45):
             J = rng.choice([t_exp, t_sin]); Fp = J.py_func
             r_ = rng.choice([-1, 1]) * rng.uniform(1e3, 1e6)
             k_ = rng.choice([1.0, 0.01, 1e-4]); c_ = rng.choice([0.7, 1.3, 0.1]) if J is t_exp else rng.choice([0.1, -0.3])
@@ -478,8 +478,20 @@ def run(ctx):
             ctx.case((solver_name, "transc", ps, a, b, xtol), nontrivial=(out[0] == 0 and out[3] >= 2), sample={"call": inp, "impl": out})
             ctx.count("%s:mode=transcendental(oracle only):%s" % (solver_name, "converged" if (out[0] == 0 and out[4]) else "not-converged"))
             if out[0] == 0 and out[4]:
-                tol = (Fraction(xtol) + Fraction(rtol) * abs(Fraction(out[1]))) * (1 + Fraction(1, 10**9))
-                if not (a <= out[1] <= b) or not sign_change_near(Fp, ps, out[1], tol, a, b):
+                # stated slack: + 4 ulp(|r|): at |x| ~ 1e6 and rtol = 4 eps the tolerance itself is ~8 ulps and the rounding of xa + dm in the
+                # last passes moves the bracket by an ulp or two (SciPy's routines behave identically; float error analysis is not modelled)
+                tol = (Fraction(xtol) + Fraction(rtol) * abs(Fraction(out[1]))) * (1 + Fraction(1, 10**9)) + 4 * Fraction(math.ulp(out[1]))
+                # sign change of the CONTINUOUS function (50-digit mpmath): at |x| ~ 1e6 the tolerance is a few ulps and the float
+                # objective is noisy at that scale, so its own sign pattern is not the reference here
+                import mpmath
+                mpmath.mp.dps = 50
+
+                def g_true(x_):
+                    d_ = mpmath.mpf(k_) * (mpmath.mpf(x_) - mpmath.mpf(r_))
+                    return (mpmath.e ** d_ - mpmath.mpf(c_)) if J is t_exp else ((mpmath.mpf(x_) - mpmath.mpf(r_)) + mpmath.mpf(0.5) * mpmath.sin(d_) - mpmath.mpf(c_))
+                lo_, hi_ = mpmath.mpf(out[1]) - mpmath.mpf(float(tol)), mpmath.mpf(out[1]) + mpmath.mpf(float(tol))
+                true_change = mpmath.sign(g_true(max(lo_, mpmath.mpf(a)))) * mpmath.sign(g_true(min(hi_, mpmath.mpf(b)))) <= 0
+                if not (a <= out[1] <= b) or not (true_change or sign_change_near(Fp, ps, out[1], tol, a, b)):
                     ctx.fail("rootfind_no_sign_change_near_root", "converged=True but no sign change of f within xtol+rtol|r| of the returned root",
                              inp, out, {"tol": float(tol)})
             else:
